@@ -258,7 +258,15 @@ class Canon:
         if tn in IGNORED_TYPE_NAMES or t.__module__ in ("logging", "contextvars", "_contextvars"):
             self.w("ign", tn)
             return
-        if tn.endswith("iterator") or tn in ("async_generator_asend", "async_generator_athrow", "coroutine_wrapper"):
+        if tn in ("async_generator_asend", "async_generator_athrow", "FutureIter", "coroutine_wrapper", "async_generator_wrapped_value"):
+            # opaque awaitables: their only state that outlives a step is what they refer to
+            import gc as _gc
+            self.w("aw", tn)
+            for r in _gc.get_referents(o):
+                if not isinstance(r, type):
+                    self.visit(r)
+            return
+        if tn.endswith("iterator"):
             self._iterator(o)
             return
         if isinstance(o, (tuple, list)):      # namedtuples, list subclasses
@@ -320,7 +328,10 @@ class Canon:
             self.w("opaque", t.__qualname__, next(_NONCE))
             return
         self.w("obj", t.__module__, t.__qualname__)
+        skip = getattr(t, "_mc_skip", None)
         if d is not None:
+            if skip:
+                d = {k: v for k, v in d.items() if k not in skip}
             self._dict(d)
         for s in sorted(set(slots)):
             if s in self.skip_attrs:
